@@ -52,6 +52,20 @@ class Ctx:
         """heap views as they were when loop `ordn` was entered (before its first iteration)"""
         return OldCtx(self._eng, self._st.ghost[f"entry{ordn}"], self._env)
 
+    def entry_local(self, ordn, name):
+        """value (z3 term) a local variable had when `for` loop `ordn` was entered (before its first iteration)"""
+        return self._st.ghost[f"entryenv{ordn}"][name].t
+
+    def exit_local(self, ordn, name):
+        """value (z3 term) a local variable had when `for` loop `ordn` was left normally; KeyError if the path did not run that loop"""
+        return self._st.ghost[f"exitenv{ordn}"][name].t
+
+    def passed_loop(self, ordn):
+        return f"exitenv{ordn}" in self._st.ghost
+
+    def has_local(self, name):
+        return name in self._env
+
     def at_head(self, ordn, name):
         """value (z3 term) a local variable had at the head of the current iteration of loop `ordn`"""
         return self._st.ghost[f"headenv{ordn}"][name].t
